@@ -170,7 +170,8 @@ sweep(const std::string &profile, const std::string &out, int shard, int nshards
     }
     return oc;
   };
-  for (int cls = 0; cls < 3; cls++) {
+  for (int ci = 0; ci < 3; ci++) {
+    const int cls = (ci + shard) % 3;  // workers start with different lock classes: a sweep cut short by its budget covers all of them
     if (((clsmask >> cls) & 1) == 0) continue;
     const int nthr = three ? 3 : 2;
     const int total = three ? kMini * kMini * kMini : kMini * kMini;
@@ -187,7 +188,8 @@ sweep(const std::string &profile, const std::string &out, int shard, int nshards
         if (base.threads[t].ops.empty()) ok = false;
       }
       if (!ok) continue;
-      if (static_cast<int>(progidx++ % static_cast<uint64_t>(nshards)) != shard) continue;
+      progidx = static_cast<uint64_t>(cls) * static_cast<uint64_t>(total) + static_cast<uint64_t>(code);
+      if (static_cast<int>((progidx / 3 + progidx % 3) % static_cast<uint64_t>(nshards)) != shard) continue;
       C.labels["sweep_programs"]++;
       // base run without preemption gives the step counts
       const Outcome boc = run_one(base);
@@ -264,7 +266,8 @@ sweep_four(const std::string &profile, const std::string &out, int shard, int ns
     return oc;
   };
   static const int focus[] = {2, 3, 4};
-  for (int cls = 0; cls < 3; cls++) {
+  for (int ci = 0; ci < 3; ci++) {
+    const int cls = (ci + shard) % 3;  // (see sweep())
     if (((clsmask >> cls) & 1) == 0) continue;
     for (int f = 0; f < 3; f++) {
       for (int code = 0; code < 27; code++) {
@@ -273,7 +276,8 @@ sweep_four(const std::string &profile, const std::string &out, int shard, int ns
           int of = 0, oc = 0, ol = 0;
           if (sscanf(only, "%d,%d,%d", &of, &oc, &ol) == 3 && (of != f || oc != code || ol != late)) continue;
         }
-        if (static_cast<int>(progidx++ % static_cast<uint64_t>(nshards)) != shard) continue;
+        progidx = static_cast<uint64_t>(((cls * 3 + f) * 27 + code) * 2 + late);
+        if (static_cast<int>((progidx / 2 + progidx % 2 * 7) % static_cast<uint64_t>(nshards)) != shard) continue;
         Case base;
         base.cls = cls;
         base.nlocks = 1;
